@@ -272,16 +272,18 @@ func (s *Streamer) parseEvents(ctx context.Context, events <-chan replication.Bi
 			_log.Debugf("parseEvents pos: %+v binlog event is a table map event, tableID: %v table map: %+v",
 				pos, tableID, *tm)
 
-			if _, ok = tablesMaps[tableID]; ok {
-				tablesMaps[tableID].tableMap = tm
+			name := NewMysqlTableName(tm.Database, tm.Name)
+			// A table id is only a cache key: the same id can be announced for another
+			// table later (e.g. after a master restart), so the cached table info is
+			// reused only while the announced name is still the same.
+			if cached, ok := tablesMaps[tableID]; ok && cached.table.Name() == name {
+				cached.tableMap = tm
 				continue
 			}
 
 			tc := &tableCache{
 				tableMap: tm,
 			}
-
-			name := NewMysqlTableName(tm.Database, tm.Name)
 
 			var info MysqlTable
 			if info, err = s.tableMapper.MysqlTable(name); err != nil {
